@@ -715,7 +715,46 @@ fn placement_matrix(sh: &mut Shard) {
             }
         }
     }
-    sh.exhaustive("74 ill-typed expressions x every expression position of their type (27 numeric, 17 string) + 22 ill-typed statements, each in 16 statement contexts");
+    sh.exhaustive("74 ill-typed expressions x every expression position of their type (27 numeric, 17 string) + 31 ill-typed statements, each in 16 statement contexts");
+    // jump x scope matrix: a label belongs to the main module (wherever its text is) or to one subprogram
+    if sh.shard == 0 {
+        for kind in 0..faults::JUMP_KINDS.len() {
+            for source in 0..faults::JUMP_SOURCES.len() {
+                for target in 0..faults::JUMP_TARGETS.len() {
+                    let jc = faults::jump_case(kind, source, target);
+                    sh.eval();
+                    sh.journal(&jc.text);
+                    let inputs = json!({"kind": "jump-scope", "program": jc.text, "jump": jc.label, "row": jc.row, "same_scope": jc.same_scope});
+                    let r = check_jump(&jc.text, jc.row, jc.same_scope, inputs);
+                    sh.class(if jc.same_scope { "jump-scope:same-scope" } else { "jump-scope:other-scope" });
+                    sh.nontrivial(hash64(&jc.text));
+                    if !sh.report(r) {
+                        return;
+                    }
+                }
+            }
+        }
+        sh.exhaustive("GOTO / GOSUB from 4 source scopes to labels written in 5 scopes (main code before and after the subprograms, SUB, FUNCTION, another SUB)");
+    }
+}
+
+fn check_jump(text: &str, row: u32, same_scope: bool, inputs: Value) -> Result<(), Violation> {
+    match impl_run::front(text) {
+        Ok(_) if same_scope => Ok(()),
+        Ok(_) => Err(Violation::new("c12-jump-into-other-scope-accepted", "a GOTO / GOSUB to a label of another scope (main module vs. a subprogram, or another subprogram) is accepted", inputs).exp_obs("lint:LabelNotDefined", "accepted")),
+        Err(FrontErr::Panic { stage, info }) => Err(Violation::new(format!("panic:{}:{}", stage, info.sig()), "the program made the parser/checker panic", inputs)),
+        Err(e) if same_scope => Err(Violation::new(format!("c12-jump-within-scope-rejected:{}", e.class()), "a GOTO / GOSUB to a label of its own scope is rejected", inputs).exp_obs("accepted", e.to_json())),
+        Err(e) => {
+            if e.class() != "lint:LabelNotDefined" {
+                return Err(Violation::new(format!("c12-jump-family:{}", e.class()), "a jump to a label of another scope is rejected with an error of another family", inputs).exp_obs("lint:LabelNotDefined", e.to_json()));
+            }
+            let (r, _) = e.pos().unwrap_or((0, 0));
+            if r != row {
+                return Err(Violation::new("c12-jump-position", "the error is not located at the jump statement", inputs).exp_obs(json!({"row": row}), e.to_json()));
+            }
+            Ok(())
+        }
+    }
 }
 
 fn check_placement(text: &str, rows: (u32, u32), ref_class: &str, plabel: &str, ctx: &str, inputs: Value) -> Result<(), Violation> {
@@ -772,6 +811,7 @@ impl Prop for C12 {
                     },
                 }
             }
+            "jump-scope" => check_jump(inputs["program"].as_str().unwrap_or(""), inputs["row"].as_u64().unwrap_or(0) as u32, inputs["same_scope"].as_bool().unwrap_or(false), inputs.clone()),
             "placement" => check_placement(inputs["program"].as_str().unwrap_or(""), (inputs["rows"][0].as_u64().unwrap_or(0) as u32, inputs["rows"][1].as_u64().unwrap_or(0) as u32), inputs["reference_class"].as_str().unwrap_or(""), inputs["position"].as_str().unwrap_or(""), inputs["context"].as_str().unwrap_or(""), inputs.clone()),
             "rename" => check_rename(inputs["original"].as_str().unwrap_or(""), inputs["renamed"].as_str().unwrap_or(""), inputs["what"].as_str().unwrap_or("replay")).map(|_| ()),
             "edit" => {
